@@ -38,6 +38,8 @@ def main():
     prop = a.prop.upper()
     if a.child:
         try:
+            import warnings
+            warnings.filterwarnings("ignore")
             mod = importlib.import_module("vcheck.props." + prop.lower())
             ctx = core.Ctx(prop, a.tier, seed, a.replay)
             if a.replay:
